@@ -3,7 +3,7 @@
 from ecdsa.der import encode_sequence, encode_integer,  \
     remove_sequence, remove_integer
 
-from .cryptomath import getRandomNumber, getRandomPrime,    \
+from .cryptomath import getRandomNumber, getRandomPrime, isPrime,    \
     powMod, numBits, bytesToNumber, invMod,   \
     secureHash, GMPY2_LOADED, gmpyLoaded
 
@@ -49,8 +49,11 @@ class Python_DSAKey(DSAKey):
         key = Python_DSAKey()
         (q, p) = Python_DSAKey.generate_qp(L, N)
 
-        index = getRandomNumber(1, (p-1))
-        g = powMod(index, int((p-1)/q), p)
+        # generator of the subgroup of order q
+        g = 1
+        while g == 1:
+            index = getRandomNumber(2, (p-1))
+            g = powMod(index, (p-1)//q, p)
         x = getRandomNumber(1, q-1)
         y = powMod(g, x, p)
         if gmpyLoaded or GMPY2_LOADED:
@@ -71,9 +74,12 @@ class Python_DSAKey(DSAKey):
         assert (L, N) in [(1024, 160), (2048, 224), (2048, 256), (3072, 256)]
 
         q = int(getRandomPrime(N))
+        # p needs to be an L bit long prime such that q divides p - 1
+        low = ((1 << (L - 1)) + q - 1) // q
+        high = (1 << L) // q
         while True:
-            p = int(getRandomPrime(L))
-            if (p-1) % q:
+            p = getRandomNumber(low, high) * q + 1
+            if numBits(p) == L and isPrime(p):
                 break
         return (q, p)
 
